@@ -73,7 +73,7 @@ def _scenario_class(run):
     def slot(s):
         d = [s.get("stage"), s.get("partial"), s.get("release")]
         if s.get("resp"):          # response stages: how the response is framed, whether the backend closes, which stream
-            d += [s["resp"].get("framing"), s["resp"].get("close"), bool(s.get("big_first"))]
+            d += [s["resp"].get("framing"), s["resp"].get("close"), bool(s.get("big_first")), bool(s.get("tcp_stall"))]
         return d
     return json.dumps([c.get("mode"), c.get("order"), c.get("crash"), c.get("deadline_s"),
                        [a.get("proto") for a in c.get("addrs", [])], [slot(s) for s in c.get("slots", [])]])
@@ -142,6 +142,8 @@ def _validate(rep, wd, name, runs, succ, consts, max_rounds):
         info = _next_event(bad, {"ctl": int(mc.group(1)) if mc else 0})
         nxt = info["next_ctl"] or {}
         klass = "trace:%s:%s" % (name, inv or nxt.get("e", "hammer"))
+        if nxt.get("e") == "SlotEnd":      # the verdict first, the measurements after
+            nxt = dict([(k, nxt[k]) for k in ("e", "r", "out", "got", "total", "end", "by", "be", "ms_since_stop_sent") if k in nxt])
         desc = "run %s (%s) is not a behaviour of Handover.tla: stuck before ctl event #%d %s" % (
             bad.get("run"), _scenario_class(bad), info["ctl_consumed"] + 1,
             json.dumps(nxt if nxt else {"hammer_suspects": [x["event"] for x in info["hammer_suspects"][:2]]})[:260])
@@ -206,11 +208,7 @@ def run(tier, replay=None):
     # (deviation QuiescedBeforeFlushed) must be refuted by TLC, else the response stages bind nothing
     dcfg = _write(wd, "dev_quiesced.cfg", MC_CFG % dict(consts, alphabet="response", dev='"QuiescedBeforeFlushed"', spec="Spec",
                                                         addrs="a1", succ="FALSE", checks="INVARIANTS TypeOK P_C10"))
-    rd = vlib.tlc("Handover", dcfg, PID, workers=2, timeout=600)
-    if not rd["violated"]:
-        raise vlib.ToolError("deviation QuiescedBeforeFlushed is not refuted by P_C10: the response stages bind nothing")
-    vlib.log("deviation QuiescedBeforeFlushed: TLC counterexample to %s as expected" % rd["violated"])
-    rep.extra["deviation_selftest"] = {"QuiescedBeforeFlushed": rd["violated"]}
+    fut_dev = pool.submit(vlib.tlc, "Handover", dcfg, PID, 2, 600)
 
     # ---- 3. codec leg
     gen_cfg = _write(wd, "codec_gen.cfg", CODEC_CFG % dict(consts, full="TRUE" if thorough else "FALSE", salt=vlib.seed() % 1000))
@@ -336,20 +334,28 @@ def run(tier, replay=None):
                             e["out"], e["by"] = out, "none"
                             break
                     can.append((cname, c4))
-            for cname, cr in can:
+            def one_canary(item):
+                cname, cr = item
                 path = os.path.join(wd, "canary_%s.ndjson" % cname)
                 with open(path, "w") as f:
                     f.write(json.dumps(_clean(cr)) + "\n")
-                cfg = _write(wd, "trace_canary.cfg", TRACE_CFG % dict(consts, succ="TRUE" if cr["cfg"]["mode"] == "handover" else "FALSE"))
-                r = vlib.tlc_trace("Trace_Handover", cfg, PID, path, timeout=600)
-                if r["accepted"]:
-                    raise vlib.ToolError("canary %s was accepted: the trace specification binds nothing" % cname)
+                cfg = _write(wd, "trace_canary_%s.cfg" % cname, TRACE_CFG % dict(consts, succ="TRUE" if cr["cfg"]["mode"] == "handover" else "FALSE"))
+                return cname, vlib.tlc_trace("Trace_Handover", cfg, PID, path, timeout=600)
+            with concurrent.futures.ThreadPoolExecutor(max_workers=5) as cpool:
+                for cname, r in cpool.map(one_canary, can):
+                    if r["accepted"]:
+                        raise vlib.ToolError("canary %s was accepted: the trace specification binds nothing" % cname)
             rep.extra["canaries_rejected"] = len(can)
 
     # ---- collect the design-level runs
     need = ["Master_AskReturn", "Master_ReceiveListeners", "Master_StartSuccessor", "Master_SendSoftStop", "New_Start",
             "New_Activate", "Old_ReturnListenSockets", "Old_Accept", "Old_SoftStop", "Old_ShutDownSessions", "Old_Exit",
             "Old_Die", "Backend_Respond", "Tick_Deadline"]
+    rd = fut_dev.result()
+    if not rd["violated"]:
+        raise vlib.ToolError("deviation QuiescedBeforeFlushed is not refuted by P_C10: the response stages bind nothing")
+    vlib.log("deviation QuiescedBeforeFlushed: TLC counterexample to %s as expected" % rd["violated"])
+    rep.extra["deviation_selftest"] = {"QuiescedBeforeFlushed": rd["violated"]}
     for name, fut in futs.items():
         r = fut.result()
         rep.add_tlc(r)
